@@ -29,6 +29,8 @@ RULE = (
     "transform / inverse / update calls on the real object."
 )
 ASSUMPTIONS = [
+    "index kinds: RangeIndex (start 0/5), monthly PeriodIndex and daily DatetimeIndex; Imputer, "
+    "ACF/PACF and (for DatetimeIndex) Detrender cannot run on the latter two in this environment",
     "round trip judged wherever transform(z) is finite",
     "ACF/PACF output is indexed by lag, not time: only values are compared under the +7 shift",
     "transformers with fit-in-transform that need a minimum length (Hampel, ACF, PACF) are "
@@ -75,14 +77,29 @@ def gen_cases(tier, seed):
                 if cfg[0] in ("hampel", "cos", "acf", "pacf", "imputer", "log") and len(sched) > 1:
                     continue
                 yield dict(cfg=cfg, m=m, sched=sched, start=(0, 5)[(m + seed) % 2],
-                           fam=seed % 2)
+                           fam=seed % 2, ik="int")
+                for ik in ("period", "datetime"):
+                    if cfg[0] in ("imputer", "acf", "pacf") or (
+                            ik == "datetime" and (cfg[0] == "detrend" or cfg[0] == "ttfT")):
+                        continue  # not supported for these index types in this environment
+                    if len(sched) > 1 and cfg[0] not in ("deseason", "cdeseason"):
+                        continue
+                    yield dict(cfg=cfg, m=m, sched=sched, start=0, fam=seed % 2, ik=ik)
 
 
-def _series(n, fam, start):
+def _index(n, start, ik, shift=0):
+    if ik == "period":
+        return pd.period_range("2001-03", periods=n + shift, freq="M")[shift:]
+    if ik == "datetime":
+        return pd.date_range("2001-03-05", periods=n + shift, freq="D")[shift:]
+    return pd.RangeIndex(start + shift, start + shift + n)
+
+
+def _series(n, fam, start, ik="int", shift=0):
     t = np.arange(n, dtype=float)
     v = 30.0 + 1.5 * t + 0.05 * t * t + np.array([4.0, -2.0, 1.0, -3.0, 2.5, 0.5, -1.5])[
         (t.astype(int) * (fam + 1)) % 7]
-    return pd.Series(v, index=pd.RangeIndex(start, start + n))
+    return pd.Series(v, index=_index(n, start, ik, shift))
 
 
 def _build(cfg):
@@ -137,7 +154,8 @@ def _evaluate(res, tag, cfg, t, t7, z, z7, m, comp_ref, stage):
     lag_indexed = cfg[0] in ("acf", "pacf")
     has_inv = hasattr(t, "inverse_transform") and cfg[0] not in ("hampel", "imputer", "cos")
     minlen = _minlen(cfg)
-    t0 = int(z.index[0])
+    pos = {lab: i for i, lab in enumerate(z.index)}
+    pos7 = {lab: i for i, lab in enumerate(z7.index)}
     for a in range(0, m + 5):
         for ln in range(max(1, minlen), max(6, minlen + 3)):
             if a + ln > len(z):
@@ -168,21 +186,23 @@ def _evaluate(res, tag, cfg, t, t7, z, z7, m, comp_ref, stage):
                             expected=list(x.index), observed=dict(index=list(xt.index), **H))
                 return True
             if not close(np.asarray(xt, float), np.asarray(xt7, float), rtol=1e-8, atol=1e-10) or \
-                    (not lag_indexed and [i + 7 for i in xt.index] != list(xt7.index)):
+                    (not lag_indexed and [pos.get(i) for i in xt.index] !=
+                     [pos7.get(i) for i in xt7.index]):
                 res.violate(tag + ":shift", "shifting the time index by +7 changes the output "
                             "values or does not shift the output index",
-                            expected=dict(index=[i + 7 for i in xt.index], values=list(xt.values)),
-                            observed=dict(index=list(xt7.index), values=list(xt7.values), **H))
+                            expected=dict(index=[str(i) for i in xt.index], values=list(xt.values)),
+                            observed=dict(index=[str(i) for i in xt7.index],
+                                          values=list(xt7.values), **H))
                 return True
             if sp is not None:
                 comp = (x / xt) if mult else (x - xt)
                 for lab, c in comp.items():
-                    e = comp_ref[(int(lab) - t0) % sp] if active else (1.0 if mult else 0.0)
+                    e = comp_ref[pos[lab] % sp] if active else (1.0 if mult else 0.0)
                     if not close([c], [e], rtol=1e-8, atol=1e-9):
                         res.violate(tag + ":phase", "seasonal component at a time point does "
                                     "not depend only on its position modulo the period "
                                     "relative to the training series", expected=e,
-                                    observed=dict(component=float(c), time=int(lab), **H))
+                                    observed=dict(component=float(c), time=str(lab), **H))
                         return True
             if has_inv:
                 res.transitions += 1
@@ -215,9 +235,11 @@ def _evaluate(res, tag, cfg, t, t7, z, z7, m, comp_ref, stage):
 def run_case(case):
     res = Result()
     cfg, m, sched, start = case["cfg"], case["m"], case["sched"], case["start"]
-    tag = cfg[0] + (":%s" % cfg[2] if cfg[0] in ("deseason", "cdeseason") else "")
-    z = _series(m + 12, case["fam"], start)
-    z7 = pd.Series(z.values, index=pd.RangeIndex(start + 7, start + 7 + len(z)))
+    ik = case.get("ik", "int")
+    tag = cfg[0] + (":%s" % cfg[2] if cfg[0] in ("deseason", "cdeseason") else "") + \
+        ("" if ik == "int" else ":" + ik)
+    z = _series(m + 12, case["fam"], start, ik)
+    z7 = _series(m + 12, case["fam"], start, ik, shift=7)
     t, t7, t2 = _build(cfg), _build(cfg), _build(cfg)
     is_ttf = cfg[0] == "ttfT"
     f = call(lambda: (t.fit(z.iloc[:m].copy()), t7.fit(z7.iloc[:m].copy())))
@@ -260,6 +282,6 @@ def run_case(case):
         res.states += 1
         if _evaluate(res, tag, cfg, t, t7, z, z7, m, comp_ref, "update%d" % (j + 1)):
             return res
-    res.nt((str(cfg), m, str(sched)))
+    res.nt((str(cfg), m, str(sched), ik))
     res.outcome(tag)
     return res
